@@ -9,6 +9,8 @@ package main
 import (
 	"flag"
 	"fmt"
+	"os"
+	"path/filepath"
 	"runtime"
 	"strings"
 	"time"
@@ -23,25 +25,28 @@ import (
 type sym struct {
 	name     string
 	ev       fsnotify.Event
-	relevant bool // an in-place modification of a .toml file
+	relevant bool   // an in-place modification of a .toml file
+	content  string // what the (real) file holds when the event is delivered; "-" = leave the file alone, "" = truncated to nothing
 }
 
 const dir = "hidi-config/user/keyboard/"
 
 var alphabet = []sym{
-	{"write a.toml", fsnotify.Event{Name: dir + "a.toml", Op: fsnotify.Write}, true},
-	{"write A.TOML", fsnotify.Event{Name: "hidi-config/factory/gamepad/A.TOML", Op: fsnotify.Write}, true},
-	{"write b.txt", fsnotify.Event{Name: dir + "b.txt", Op: fsnotify.Write}, false},
-	{"write atoml", fsnotify.Event{Name: dir + "atoml", Op: fsnotify.Write}, false},
-	{"write toml", fsnotify.Event{Name: dir + "toml", Op: fsnotify.Write}, false},
-	{"create c.toml", fsnotify.Event{Name: dir + "c.toml", Op: fsnotify.Create}, false},
-	{"chmod a.toml", fsnotify.Event{Name: dir + "a.toml", Op: fsnotify.Chmod}, false},
-	{"remove a.toml", fsnotify.Event{Name: dir + "a.toml", Op: fsnotify.Remove}, false},
-	{"rename a.toml", fsnotify.Event{Name: dir + "a.toml", Op: fsnotify.Rename}, false},
-	{"write a.toml.bak", fsnotify.Event{Name: dir + "a.toml.bak", Op: fsnotify.Write}, false},
+	{"write a.toml", fsnotify.Event{Name: dir + "a.toml", Op: fsnotify.Write}, true, "collision_mode = \"off\"\n"},
+	{"write A.TOML", fsnotify.Event{Name: "hidi-config/factory/gamepad/A.TOML", Op: fsnotify.Write}, true, "x = 1\n"},
+	{"write b.txt", fsnotify.Event{Name: dir + "b.txt", Op: fsnotify.Write}, false, "text"},
+	{"write atoml", fsnotify.Event{Name: dir + "atoml", Op: fsnotify.Write}, false, "text"},
+	{"write toml", fsnotify.Event{Name: dir + "toml", Op: fsnotify.Write}, false, "text"},
+	{"create c.toml", fsnotify.Event{Name: dir + "c.toml", Op: fsnotify.Create}, false, ""},
+	{"chmod a.toml", fsnotify.Event{Name: dir + "a.toml", Op: fsnotify.Chmod}, false, "-"},
+	{"remove a.toml", fsnotify.Event{Name: dir + "a.toml", Op: fsnotify.Remove}, false, "-"},
+	{"rename a.toml", fsnotify.Event{Name: dir + "a.toml", Op: fsnotify.Rename}, false, "-"},
+	{"write a.toml.bak", fsnotify.Event{Name: dir + "a.toml.bak", Op: fsnotify.Write}, false, "text"},
+	// the file is emptied in place (`: > a.toml`, os.Truncate): one Write event, the file holds nothing afterwards
+	{"truncate a.toml to nothing", fsnotify.Event{Name: dir + "a.toml", Op: fsnotify.Write}, true, ""},
 	// the kernel queue overflowed (a burst while the consumer was late): the library reports ErrEventOverflow on
 	// watcher.Errors with a BLOCKING send (inotify.go:250-256 of fsnotify v1.5.1) before it reads on
-	{"queue overflow", fsnotify.Event{Name: "overflow"}, false},
+	{"queue overflow", fsnotify.Event{Name: "overflow"}, false, "-"},
 }
 
 type cfg struct {
@@ -60,6 +65,7 @@ func (c cfg) name() string {
 
 func scenario(c cfg) func() {
 	return func() {
+		os.WriteFile(dir+"a.toml", []byte("collision_mode = \"interrupt\"\n"), 0o644) // the same starting point for every execution
 		var w *fsnotify.Watcher
 		fsnotify.VerifNewWatcher = func() (*fsnotify.Watcher, error) {
 			w = &fsnotify.Watcher{Events: make(chan fsnotify.Event), Errors: make(chan error), Done: make(chan struct{})}
@@ -78,6 +84,13 @@ func scenario(c cfg) func() {
 						}
 						vsched.Observe("overflow-reported", i)
 						continue
+					}
+					if a := alphabet[i]; a.content != "-" { // the file system is real: the file holds this when the event arrives
+						if a.ev.Op == fsnotify.Remove || a.ev.Op == fsnotify.Rename {
+							os.Remove(a.ev.Name)
+						} else {
+							os.WriteFile(a.ev.Name, []byte(a.content), 0o644)
+						}
 					}
 					vsched.Observe("offered", i) // recorded BEFORE the hand-off: a notification can only follow it
 					e := vsched.CaseSend[fsnotify.Event](w.Events, alphabet[i].ev)
@@ -224,6 +237,18 @@ func main() {
 		for range logger.Messages {
 		}
 	}()
+	// the watched directories exist for real (the code under test may look at the files its events name)
+	tmp, err := os.MkdirTemp("", "verif_c19_fs")
+	if err != nil {
+		panic(err)
+	}
+	defer os.RemoveAll(tmp)
+	for _, d := range []string{"factory/gamepad", "factory/keyboard", "user/gamepad", "user/keyboard"} {
+		os.MkdirAll(filepath.Join(tmp, "hidi-config", d), 0o755)
+	}
+	if err := os.Chdir(tmp); err != nil {
+		panic(err)
+	}
 	res := vutil.NewResult()
 	maxLen := 2
 	if *tier == "thorough" {
